@@ -653,9 +653,14 @@ def exec_history(hist, workdir, collect=None, light=False):
                   stats["stores_exchange_only"] += 1
               for sid in op["ids"]:
                   stored.add(sid)
-              # per-system vectors against the one-pass reference
+              # per-system vectors against the one-pass reference (bookkeeping attributes named in
+              # the property's anchors; if a refactor renames them these observations are
+              # skipped and the black-box checks on alpha / likelihood remain)
               for ik, kern in enumerate(gp.kernels):
                   if not gc and kern.component != "x":
+                      continue
+                  if not all(hasattr(kern, a) for a in ("cov_dict", "base_dict", "dcov_dict", "dbase_dict")):
+                      stats["internal_state_unavailable"] += 1
                       continue
                   for sid in set(op["ids"]):
                       q = ref.system(ik, sid)
@@ -677,8 +682,8 @@ def exec_history(hist, workdir, collect=None, light=False):
                               if abs(gb - dbase) > 2e-4 * max(abs(dbase), abs(gb), 1e-6) + 1e-9:
                                   V("system:dbase_dict:fd-mismatch", "kernel %d %s %s: %r vs %r" % (ik, sid, orb, gb, dbase))
                               stats["fd_checks"] += 1
-              ex = gp.exx_ref_dict
-              for sid in set(op["ids"]):
+              ex = getattr(gp, "exx_ref_dict", None)
+              for sid in set(op["ids"]) if ex is not None else []:
                   want = float((data[sid]["val"] * data[sid]["wt"]).sum())
                   if sid not in ex:
                       V("system:exx_ref:missing", "%s: store_mol_covs(get_correlation=%s) did not store the reference energy (kernel order %s)" % (sid, gc, [k.component for k in gp.kernels]))
@@ -697,13 +702,20 @@ def exec_history(hist, workdir, collect=None, light=False):
               last_fit = (R, op)
               stats["fits"] += 1
               stats["reactions_in_fit"] += len(rx_in)
-              y = np.asarray(gp.rxn_ref_list, dtype=float)
-              if y.shape != R["y"].shape or np.abs(y - R["y"]).max() > 1e-9 * max(1.0, np.abs(R["y"]).max()):
-                  V("fit:labels:mismatch", "step %d: max diff %.3g" % (step, np.abs(y - R["y"]).max() if y.shape == R["y"].shape else -1))
-              nz = np.asarray(gp.rxn_noise_list, dtype=float)
-              if nz.shape != R["noise"].shape or np.abs(nz - R["noise"]).max() > 1e-10 * max(1.0, np.abs(R["noise"]).max()):
-                  V("fit:noise:mismatch", "step %d" % step)
-              am = np.asarray(gp.alpha_mol_)
+              if hasattr(gp, "rxn_ref_list"):
+                  y = np.asarray(gp.rxn_ref_list, dtype=float)
+                  if y.shape != R["y"].shape or np.abs(y - R["y"]).max() > 1e-9 * max(1.0, np.abs(R["y"]).max()):
+                      V("fit:labels:mismatch", "step %d: max diff %.3g" % (step, np.abs(y - R["y"]).max() if y.shape == R["y"].shape else -1))
+              else:
+                  stats["internal_state_unavailable"] += 1
+              if hasattr(gp, "rxn_noise_list"):
+                  nz = np.asarray(gp.rxn_noise_list, dtype=float)
+                  if nz.shape != R["noise"].shape or np.abs(nz - R["noise"]).max() > 1e-10 * max(1.0, np.abs(R["noise"]).max()):
+                      V("fit:noise:mismatch", "step %d" % step)
+              else:
+                  stats["internal_state_unavailable"] += 1
+              have_amol = getattr(gp, "alpha_mol_", None) is not None
+              am = np.asarray(gp.alpha_mol_) if have_amol else R["amol"]
               tol = 1e-12 * R["condK"] * max(np.abs(R["amol"]).max(), 1e-300) + 1e-300
               if am.shape != R["amol"].shape or np.abs(am - R["amol"]).max() > max(tol, 1e-9 * np.abs(R["amol"]).max()):
                   V("fit:alpha_mol:mismatch", "step %d: max diff %.3g tol %.3g condK %.3g" % (step, np.abs(am - R["amol"]).max() if am.shape == R["amol"].shape else -1, tol, R["condK"]))
@@ -736,7 +748,7 @@ def exec_history(hist, workdir, collect=None, light=False):
               # residual on the training reactions = noise covariance applied to reaction weights
               pred = np.zeros(len(rx_in))
               for ik, kern in enumerate(gp.kernels):
-                  pred += np.stack(kern.rxn_cov_list).dot(np.asarray(kern.alpha))
+                  pred += R["Kmn"][ik].T.dot(np.asarray(kern.alpha))
               resid = R["y"] - pred
               nn = R["noise"] ** 2 * (1.0 if op["x"] is None else (op["sigma_min"] + op["x"][1] ** 2)) + EPS
               # with the package's own reaction weights: resid - nn*amol = y - K amol is the residual
@@ -751,7 +763,7 @@ def exec_history(hist, workdir, collect=None, light=False):
               for kern in gp.kernels:
                   dg.add_array(np.round(np.asarray(kern.alpha), 6))
           elif c == "lik":
-              if last_fit is None or gp.alpha_mol_ is None:
+              if last_fit is None:
                   continue
               R, fop = last_fit
               x = np.array([1.0, 1.0]) if op["x"] is None else np.array(op["x"])
@@ -784,7 +796,8 @@ def invariants(hist, workdir, state, seed):
     R, fop = last_fit
     x = None if fop["x"] is None else np.array(fop["x"])
     base_alpha = [np.asarray(k.alpha).copy() for k in gp.kernels]
-    base_amol = np.asarray(gp.alpha_mol_).copy()
+    have_amol = getattr(gp, "alpha_mol_", None) is not None
+    base_amol = np.asarray(gp.alpha_mol_).copy() if have_amol else R["amol"].copy()
     tol_a = [max(1e-11 * R["condmm"] * R["condK"], 1e-8) * max(np.abs(a).max(), 1e-300) for a in base_alpha]
     tol_m = max(1e-11 * R["condK"], 1e-9) * max(np.abs(base_amol).max(), 1e-300)
     rng = Rng(derive("gphist-inv", seed))
@@ -802,7 +815,7 @@ def invariants(hist, workdir, state, seed):
         d = np.abs(np.asarray(k.alpha) - base_alpha[ik]).max() if np.asarray(k.alpha).shape == base_alpha[ik].shape else np.inf
         if d > tol_a[ik]:
             viol.append({"key": "invariant:reset-readd:alpha-changed", "detail": "kernel %d diff %.3g tol %.3g" % (ik, d, tol_a[ik]), "replay": rp})
-    if np.asarray(gp.alpha_mol_).shape != base_amol.shape or np.abs(np.asarray(gp.alpha_mol_) - base_amol).max() > tol_m:
+    if have_amol and (np.asarray(gp.alpha_mol_).shape != base_amol.shape or np.abs(np.asarray(gp.alpha_mol_) - base_amol).max() > tol_m):
         viol.append({"key": "invariant:reset-readd:alpha_mol-changed", "detail": "", "replay": rp})
     stats["inv_reset"] += 1
     # (c) fresh object, systems stored in another order and twice, reactions permuted and re-batched
@@ -828,7 +841,7 @@ def invariants(hist, workdir, state, seed):
         d = np.abs(np.asarray(k.alpha) - base_alpha[ik]).max() if np.asarray(k.alpha).shape == base_alpha[ik].shape else np.inf
         if d > tol_a[ik]:
             viol.append({"key": "invariant:order:alpha-changed", "detail": "kernel %d diff %.3g tol %.3g" % (ik, d, tol_a[ik]), "replay": rp})
-    am2 = np.asarray(gp2.alpha_mol_)
+    am2 = np.asarray(gp2.alpha_mol_) if have_amol else base_amol[perm]
     if am2.shape != base_amol.shape or np.abs(am2 - base_amol[perm]).max() > tol_m:
         viol.append({"key": "invariant:order:alpha_mol-not-permuted", "detail": "max dev %.3g tol %.3g" % (np.abs(am2 - base_amol[perm]).max() if am2.shape == base_amol.shape else -1, tol_m), "replay": rp})
     stats["inv_order"] += 1
